@@ -475,6 +475,15 @@ func TestC29(t *testing.T) {
 
 func TestC29Replay(t *testing.T) {
 	vstat.Replay(t, "C29", func(raw []byte) error {
+		// replay files of the second stage (TestC29Shapes) carry a Shape field
+		var probe struct{ Shape *string }
+		if err := json.Unmarshal(raw, &probe); err == nil && probe.Shape != nil {
+			var sc c29ShapeCase
+			if err := json.Unmarshal(raw, &sc); err != nil {
+				return err
+			}
+			return c29ShapeRun(sc, vstat.New(nil, "C29", ""))
+		}
 		var c c29Case
 		if err := json.Unmarshal(raw, &c); err != nil {
 			return err
